@@ -16,8 +16,18 @@ From Otto Require Import Common.Double C13.SpecMath.
 Import ListNotations.
 Open Scope Z_scope.
 
+(* ---------- switches for the repairs in proposed_fixes/C13-*.diff ----------
+   All false on the recorded tree; flipped by the coordinator together with the
+   repair (the matching ..._refuted theorem and open finding are then removed). *)
+Definition fixed_pow : bool := false.        (* C13-pow-one-nan.diff *)
+Definition fixed_round : bool := false.      (* C13-round-exact.diff *)
+Definition fixed_atan2 : bool := false.      (* C13-atan2-sign.diff *)
+Definition fixed_tonumber : bool := false.   (* C13-tonumber-all-args.diff *)
+
 (* ---------- max / min ---------- *)
-(* math.Max: Max(x, NaN) = Max(NaN, x) = NaN, Max(+0, -0) = Max(-0, +0) = +0 ... *)
+(* math.Max / math.Min on the arguments otto passes to them: never a NaN (the
+   loop returns before), so that Max(+0, -0) = Max(-0, +0) = +0 and
+   Max(x, +Inf) = +Inf are the order [key]; the NaN clause is never reached *)
 Definition go_max (a b : Z) : Z := if is_nan a || is_nan b then nan_bits else max_step a b.
 Definition go_min (a b : Z) : Z := if is_nan a || is_nan b then nan_bits else min_step a b.
 
@@ -43,14 +53,6 @@ Fixpoint conv_until_nan (l : list Z) (n : Z) : Z :=
   | [] => n
   | v :: r => if is_nan v then n + 1 else conv_until_nan r (n + 1)
   end.
-Definition conv_model (fn : Z) (l : list Z) : Z :=
-  if (fn =? 10) || (fn =? 11) then
-    match l with [] => 0 | [_] => 1 | _ => conv_until_nan l 0 end
-  else if fn =? 4 then
-    match l with [] => 0 | [_] => 1 | y :: _ => if is_nan y then 1 else 2 end
-  else if fn =? 12 then Z.min 2 (Z.of_nat (length l))
-  else if fn =? 17 then 0
-  else Z.min 1 (Z.of_nat (length l)).
 (* 15.8.2: "applies the ToNumber abstract operator to each of its arguments (in
    left-to-right order if there is more than one)" *)
 Definition conv_spec (fn : Z) (l : list Z) : Z :=
@@ -59,20 +61,32 @@ Definition conv_spec (fn : Z) (l : list Z) : Z :=
   else if fn =? 17 then 0
   else Z.min 1 (Z.of_nat (length l)).
 
+Definition conv_model (fn : Z) (l : list Z) : Z :=
+  if fixed_tonumber then conv_spec fn l else
+  if (fn =? 10) || (fn =? 11) then
+    match l with [] => 0 | [_] => 1 | _ => conv_until_nan l 0 end
+  else if fn =? 4 then
+    match l with [] => 0 | [_] => 1 | y :: _ => if is_nan y then 1 else 2 end
+  else if fn =? 12 then Z.min 2 (Z.of_nat (length l))
+  else if fn =? 17 then 0
+  else Z.min 1 (Z.of_nat (length l)).
 (* ---------- round ---------- *)
 (* value := math.Floor(number + 0.5); if value == 0 { value = Copysign(0, number) }
    The binary64 sum is the exact sum N * 2^k rounded to nearest-even
    (Common.Double.round_to_double rounds an integer to 53 significant bits;
    scaling by 2^k does not change the rounding: no overflow, and k >= -1074). *)
+(* the exact sum x + 1/2 as N * 2^k, for x = S * 2^e *)
+Definition half_sum (S e : Z) : Z * Z :=
+  if -1 <=? e then (S * 2 ^ (e + 1) + 1, -1) else (S + 2 ^ (-1 - e), e).
+(* the integer math.Floor(number + 0.5) *)
+Definition round_int_model (S e : Z) : Z :=
+  let '(N, k) := half_sum S e in round_to_double N / 2 ^ (- k).
 Definition round_model (b : Z) : Z :=
+  if fixed_round then round_spec b else
   match decode b with
   | DNaN => nan_bits
   | DInf _ => b
-  | DFin neg m e =>
-      let S := if neg then - m else m in
-      let '(N, k) := if -1 <=? e then (S * 2 ^ (e + 1) + 1, -1) else (S + 2 ^ (-1 - e), e) in
-      let R := round_to_double N in
-      enc_int_signed neg (R / 2 ^ (- k))
+  | DFin neg m e => enc_int_signed neg (round_int_model (if neg then - m else m) e)
   end.
 
 (* ---------- pow ---------- *)
@@ -105,6 +119,7 @@ Definition go_pow_tbl (cx cy : acl) : option rcl :=
 (* builtinMathPow: if math.Abs(x) == 1 && math.IsInf(y, 0) { return NaN } *)
 Definition otto_pow_tbl (cx cy : acl) : option rcl :=
   match cy with
+  | CNaN => if fixed_pow then Some RNaN else go_pow_tbl cx cy
   | CInf _ => if abs_eq1 cx then Some RNaN else go_pow_tbl cx cy
   | _ => go_pow_tbl cx cy
   end.
@@ -134,7 +149,7 @@ Definition otto_atan2_tbl (cy cx : acl) : option rcl :=
 
 (* atan2.go: q := Atan(y / x); if x < 0 { if q <= 0 { return q + Pi }; return q - Pi } *)
 Definition gen_atan2_model (y x obs : Z) : bool :=
-  if sgnb x && sgnb y && quotient_underflows y x then approx_const 48 obs PI_bits
+  if negb fixed_atan2 && sgnb x && sgnb y && quotient_underflows y x then approx_const 48 obs PI_bits
   else gen_atan2 y x obs.
 
 (* ---------- one Math call ---------- *)
